@@ -78,7 +78,7 @@ if P and P.get('kind') == 'hist':
     NOPS = 10 if MULTI else 9
     PIN = P.get('pin')
     MAXOPS = P.get('maxops', 3)
-    NPROBES = P.get('nprobes', len(PROBES))
+    NPROBES = min(P.get('nprobes', len(PROBES)), len(PROBES))
 
     def _lexed(lk, text):
         try:
